@@ -4,6 +4,7 @@ Import ListNotations.
 Require Import TL.Model.Core.
 Require Import TL.Model.CoreC06.
 Require Import TL.Model.CoreC06Toy.
+Require TL.Proofs.CoreHash.
 
 (* ------------------------------------------------------------------ generic list / monad lemmas *)
 Lemma mapM_pres {A B} (Q : A -> Prop) (P : B -> Prop) (f : A -> res B) :
@@ -196,6 +197,7 @@ Proof.
     intros v y _ Hy. eapply IH; eauto.
   - apply andb_true_iff in HR. destruct HR as [HRk HRv].
     destruct (iteritems rt E x) as [kvs| | |]; cbn [bind] in HM; try discriminate.
+    apply (proj1 (TL.Proofs.CoreHash.map_step_ok_iff _ _ _ _ _)) in HM.
     destruct (mapM (map_step (marG rt E nm n) kt vt) kvs) as [rs| | |] eqn:Hm; cbn [bind] in HM; try discriminate.
     eapply map_out; [|exact HM].
     eapply (mapM_pres (fun _ => True)); [|apply Forall_True|exact Hm].
@@ -298,6 +300,7 @@ Proof.
     intros x y Hx Hy. eapply IH; eauto.
   - apply andb_true_iff in HA. destruct HA as [HAk HAv].
     destruct v as [ | | |k' l| | ]; try discriminate. cbn [iteritems bind] in HM.
+    apply (proj1 (TL.Proofs.CoreHash.map_step_ok_iff _ _ _ _ _)) in HM.
     destruct (mapM (map_step (marG rt E nm m) kt vt) l) as [rs| | |] eqn:Hm; cbn [bind] in HM; try discriminate.
     eapply map_out; [|exact HM].
     eapply (mapM_pres (fun kv : pv * pv => val n kt (fst kv) && val n vt (snd kv) = true));
